@@ -322,6 +322,22 @@ func (e *Enc) callStatic0(f *frame, fn *ssa.Function, args []Val, bind []Val, po
 		e.pureResultFacts(name, r)
 		return r
 	}
+	if e.autoInlinable(fn) {
+		// a small unexported helper of the repository without a contract (the
+		// result of an "extract function" refactoring, a strategy selector, ...):
+		// its body is executed in place instead of forgetting everything. No
+		// obligations are generated inside it (none were before, when the call
+		// was an unknown callee).
+		if e.dry == 0 {
+			e.inlined["auto:"+e.L.funcName(fn)]++
+		}
+		e.noObl++
+		e.autoDepth++
+		_, rs := e.runBody(fn, args, bind, false, nil)
+		e.autoDepth--
+		e.noObl--
+		return pack(rs)
+	}
 	e.abstract("call-without-contract:" + name)
 	e.havocAll("call " + name)
 	return freshResults(fn.Name())
@@ -1125,4 +1141,36 @@ func isNamedOrAlias(t types.Type) bool {
 		return true
 	}
 	return false
+}
+
+// autoInlinable: an unexported function of the repository, with a body, no
+// contract, no loops, small, not already on the frame stack, at most two levels deep.
+func (e *Enc) autoInlinable(fn *ssa.Function) bool {
+	if fn == nil || fn.Pkg == nil || len(fn.Blocks) == 0 || e.autoDepth >= 2 || len(e.frames) > 6 {
+		return false
+	}
+	if !strings.HasPrefix(fn.Pkg.Pkg.Path(), repoModule) || token.IsExported(fn.Name()) {
+		return false
+	}
+	if fn.Signature.Recv() != nil {
+		// methods: only unexported ones (checked above); fine
+	}
+	n := 0
+	for _, b := range fn.Blocks {
+		n += len(b.Instrs)
+		for _, s := range b.Succs {
+			if s.Dominates(b) {
+				return false // a loop
+			}
+		}
+	}
+	if n > 80 {
+		return false
+	}
+	for _, f := range e.frames {
+		if f.fn == fn {
+			return false
+		}
+	}
+	return true
 }
